@@ -2064,11 +2064,64 @@ fn statics_oracle(p: &Program) -> Box<dyn FnMut(&IterData) -> Option<Viol>> {
     })
 }
 
+/// Hand-written models (statics.rs): nested lazy statics / thread-local initialisers.
+fn eval_c17_nesting(job: &Job, which: usize) -> JobResult {
+    use std::sync::atomic::Ordering::SeqCst;
+    let _ = job;
+    let mut res = JobResult::default();
+    let ctr = |k: usize| match k {
+        0 => crate::statics::OUTER_INITS.load(SeqCst),
+        1 => crate::statics::INNER_INITS.load(SeqCst),
+        2 => crate::statics::NEST_A_INITS.load(SeqCst),
+        _ => crate::statics::NEST_B_INITS.load(SeqCst),
+    };
+    let before: Vec<usize> = (0..4).map(ctr).collect();
+    let iters = std::sync::Arc::new(std::sync::atomic::AtomicUsize::new(0));
+    let i2 = iters.clone();
+    let mut b = loom::model::Builder::new();
+    b.log = false;
+    let r = std::panic::catch_unwind(std::panic::AssertUnwindSafe(move || {
+        b.check(move || {
+            i2.fetch_add(1, SeqCst);
+            crate::statics::nesting_model(which);
+        })
+    }));
+    let d: Vec<usize> = (0..4).map(|k| ctr(k) - before[k]).collect();
+    let n = iters.load(SeqCst);
+    res.loom_iterations = n as u64;
+    res.states = n as u64;
+    res.transitions = n as u64;
+    res.nontrivial = true;
+    res.verdict = if r.is_ok() { "Ok".into() } else { "Panic".into() };
+    res.sample = json!({"mode": "custom", "model": which, "iterations": n, "outer_inits": d[0], "inner_inits": d[1], "tls_a_inits": d[2], "tls_b_inits": d[3]});
+    if let Err(p) = r {
+        let msg = p.downcast_ref::<&str>().map(|s| s.to_string()).or_else(|| p.downcast_ref::<String>().cloned()).unwrap_or_default();
+        res.violations.push(viol("statics", format!("custom model {}", which), "the model returns normally".into(), msg.lines().next().unwrap_or("").to_string(), json!({})));
+        return res;
+    }
+    let ok = if which == 3 { d[0] == n && d[1] == n } else { d[2] == 2 * n && d[3] == 2 * n };
+    if !ok {
+        res.violations.push(viol(
+            "statics",
+            format!("custom model {}", which),
+            if which == 3 { format!("{} iterations: OUTER and INNER initialised once per execution", n) } else { format!("{} iterations x 2 threads: A and B initialised once per thread", n) },
+            format!("OUTER {} INNER {} A {} B {}", d[0], d[1], d[2], d[3]),
+            json!({}),
+        ));
+    } else {
+        res.traces_validated += n as u64;
+    }
+    res
+}
+
 /// Hand-written models (statics.rs): a thread-local first touched during its thread's teardown.
 fn eval_c17_custom(job: &Job) -> JobResult {
     use std::sync::atomic::Ordering::SeqCst;
     let mut res = JobResult::default();
     let which = job.extra["which"].as_u64().unwrap_or(0) as usize;
+    if which >= 3 {
+        return eval_c17_nesting(job, which);
+    }
     let before = [
         crate::statics::EARLY_INITS.load(SeqCst),
         crate::statics::EARLY_DROPS.load(SeqCst),
